@@ -30,9 +30,26 @@ struct Shared {
   unodb::optimistic_lock lock;
   unodb::in_critical_section<std::uint64_t> d1{0};
   unodb::in_critical_section<std::uint64_t> d2{0};
+  // Where the lock word lives inside the object is learnt from the hooks (the address passed with the first
+  // L_LOAD of a probing read section), not assumed from the class layout.
+  const void* word_addr = nullptr;
+  static inline const void* probe_addr = nullptr;
+  static void probe_cb(ev e, const void* a, std::uint64_t) noexcept {
+    if (e == ev::L_LOAD && probe_addr == nullptr) probe_addr = a;
+  }
+  Shared() {
+    probe_addr = nullptr;
+    const auto prev = unodb::verif::g_hook.exchange(&Shared::probe_cb);
+    {
+      auto rcs = lock.try_read_lock();
+      (void)rcs.try_read_unlock();
+    }
+    unodb::verif::g_hook.store(prev);
+    word_addr = probe_addr != nullptr ? probe_addr : static_cast<const void*>(&lock);
+  }
   std::uint64_t raw_word() const {
     std::uint64_t w;
-    std::memcpy(&w, &lock, sizeof w);  // the lock word is the first member
+    std::memcpy(&w, word_addr, sizeof w);
     return w;
   }
   // --word-offset: the execution starts from a lock that has already seen offset/4 write sections (a legitimate
@@ -40,7 +57,7 @@ struct Shared {
   // apply unchanged.  With an offset just below 2^32 the words cross the 32-bit boundary during the run.
   static inline std::uint64_t offset = 0;
   void preset() {
-    if (offset != 0) std::memcpy(static_cast<void*>(&lock), &offset, sizeof offset);
+    if (offset != 0) std::memcpy(const_cast<void*>(word_addr), &offset, sizeof offset);
   }
   std::uint64_t word() const {
     const auto w = raw_word();
